@@ -807,8 +807,22 @@ def compare_view(inf, got):
         return None if model == seen else (model, seen)
     if w == "fibex":
         # which frames keep their name and which get another one - not which one (the model's <name>_<n> is one valid choice)
+        # Position by position: a frame whose name an EARLIER frame already had must come out renamed; a frame before which no name
+        # clashed yet must keep its name; a first-of-its-name frame AFTER some clash may or may not collide with the fresh name chosen
+        # there (e.g. a frame already called X_2 behind two frames X) - that depends on the choice and is not compared.
         orig = inf["orig"]
-        canon = lambda names: [n_ if n_ == o_ else "<renamed>" for n_, o_ in zip(names, orig)] + ["<length %d>" % len(names)]
+
+        def canon(names):
+            out_, clash = [], False
+            for i_, (n_, o_) in enumerate(zip(names, orig)):
+                if o_ in orig[:i_]:
+                    out_.append("<renamed>" if n_ != o_ else "<KEPT a name that was taken: %s>" % n_)
+                    clash = True
+                elif not clash:
+                    out_.append(n_ if n_ == o_ else "<RENAMED without a clash: %s -> %s>" % (o_, n_))
+                else:
+                    out_.append("<open>")
+            return out_ + ["<length %d>" % len(names)]
         model = canon([f["name"] for f in m])
         return None if model == canon(seen) else (model, canon(seen))
     if w == "kcd":
